@@ -1,5 +1,6 @@
 import CanopenModel.Bytes
 import CanopenModel.P402
+import CanopenModel.P402Mode
 namespace Canopen.Driver.C19
 open Canopen Canopen.P402 Canopen.Spec.Drive402 Canopen.Gen.P402Tables
 
@@ -48,12 +49,62 @@ def hist (start : PState) (rst : Bool) (pdo auto12 : Bool) (extra f s : Nat) (it
           go rest k.c.st k.c.rst (resultName k.c.pc :: res) (k.cws ++ cws) (k.trace ++ trace) (acc + k.acc)
   go items start rst [] [] [start] 0
 
+/-! ### `mhist`: mode steps on one node object over an unreliable link -/
+
+def parseLink (c : Char) : Option Link :=
+  if c = 'u' then some .up else if c = 'd' then some .down else if c = 'x' then some .noObj else none
+
+/-- one step token: kind (`a` assign, `q` is_op_mode_supported, `r` read), index into `modeNames`,
+    link (`u` up, `d` down, `x` 0x6502 does not exist); e.g. `a3u`, `q12d`, `r0x` -/
+def parseMStep (tok : String) : Option (Link × MStep) :=
+  match tok.toList with
+  | k :: rest =>
+    (match rest.reverse with
+     | l :: midRev =>
+       (match parseLink l, (String.ofList midRev.reverse).toNat? with
+        | some link, some mi =>
+          if k = 'r' then some (link, .read)
+          else match modeNames[mi]? with
+            | none => none
+            | some name =>
+              if k = 'a' then some (link, .assign name)
+              else if k = 'q' then some (link, .query name) else none
+        | _, _ => none)
+     | [] => none)
+  | [] => none
+
+def parseMSteps (s : String) : Option (List (Link × MStep)) :=
+  if s = "-" then some [] else (s.splitOn ",").mapM parseMStep
+
+/-- the name the getter returns for a displayed code, as its index in `modeNames`; `key` = KeyError -/
+def showShown (code : Int) : String :=
+  match (CODE2NAME.find? fun r => r.1 == code).map (·.2) with
+  | none => "key"
+  | some name =>
+    match modeNames.findIdx? (· == name) with
+    | some i => s!"m{i}"
+    | none => "key"
+
+def showMOut : MOut → String
+  | .set code => s!"ok:{code}"
+  | .dropped => "ok:-"
+  | .refused => "refused:-"
+  | .commErr => "comm:-"
+  | .aborted => "abort:-"
+  | .noTpdo => "notpdo:-"
+  | .answer b => if b then "yes:-" else "no:-"
+  | .shows code => s!"{showShown code}:-"
+
+def mhist (pdo : Bool) (mask : Nat) (steps : List (Link × MStep)) : String :=
+  let outs := runHist pdo mask MNode.fresh steps
+  if outs.isEmpty then "-" else String.intercalate "/" (outs.map showMOut)
+
 def parseTransport (s : String) : Option Bool :=
   -- "d": the objects are mapped in PDOs that are switched off, which the profile ignores: SDO transport
   if s = "p" then some true else if s = "s" ∨ s = "d" then some false else none
 
 /-- ops: `sw n transport`, `goto start rst target transport auto12 d extra F S schedule`,
-    `mode index mask transport delay M` -/
+    `mode index mask transport delay M`, `mhist transport mask steps` -/
 def step (args : List String) : String :=
   match args with
   | ["sw", n, t] => match parseNat n, parseTransport t with
@@ -94,6 +145,11 @@ def step (args : List String) : String :=
           | .written code => s!"ok wr={code} rd={opModeReads code delay m} carried={if pdo then toString code else "-"}")
        | none => "bad-op")
     | _, _, _, _, _ => "bad-op"
+  | ["mhist", tr, mask, items] =>
+    -- a history of op_mode assignments / is_op_mode_supported calls / op_mode reads on one node
+    match parseTransport tr, parseNat mask, parseMSteps items with
+    | some pdo, some mask, some steps => mhist pdo mask steps
+    | _, _, _ => "bad-op"
   | _ => "bad-op"
 
 end Canopen.Driver.C19
